@@ -40,7 +40,7 @@ TRUSTED_BASE = [
     "translator tools/rs2v.py (Rust subset -> Gallina: 29 integer kernels of fpdec-core -> coq/gen/GenCore.v, 44 Decimal-level functions of src/ -> coq/gen/GenDec.v, 226 macro-generated integer-operand forms -> coq/gen/GenInt.v, 20 integer conversions -> coq/gen/GenConv.v, regenerated on every run; "
     "syntax-directed, conventions listed in its header; assumes every variable holds a value in the range of its Rust type); "
     "the tie lemmas coq/proofs/GenTie*.v prove each translated function equal to the hand-written model",
-    "structural tie: tools/fingerprint.py + tools/source_fingerprints.json (item-level digests of the Rust text the model was written from; updated by hand only)",
+    "structural tie: tools/fingerprint.py + tools/source_fingerprints.json (digests of every top-level Rust item, of each file's function/module imports, of the crate-wide lists of source files, mod declarations, impl headers, macro_rules names, include! uses and linkage/unsafe markers, of the Cargo manifest sections and build configuration files; sources read without newline translation; updated by hand only); outside the repository (toolchain, compiler-rt, registry copies of dependencies) nothing is tied",
     "modelled, not verified: core::fmt padding, `as f64/f32` casts, thread_local!, derived Hash, serde/rkyv derives, rustc lexer and const evaluation, opt-level and packed layout (exercised by the correspondence run)",
 ]
 
